@@ -2196,6 +2196,7 @@ class SquareLowRankUpdateMatrix(InvertibleMatrix, ImplicitArrayMatrix):
                 self.right_factor_matrix,
                 self.square_matrix,
                 self.inner_square_matrix,
+                self._sign,
             ),
         )
 
@@ -2205,6 +2206,7 @@ class SquareLowRankUpdateMatrix(InvertibleMatrix, ImplicitArrayMatrix):
             and self.right_factor_matrix == other.right_factor_matrix
             and self.square_matrix == other.square_matrix
             and self.inner_square_matrix == other.inner_square_matrix
+            and self._sign == other._sign
         )
 
 
@@ -2328,13 +2330,21 @@ class SymmetricLowRankUpdateMatrix(
         return self
 
     def _compute_hash(self) -> int:
-        return hash((self.factor_matrix, self.square_matrix, self.inner_square_matrix))
+        return hash(
+            (
+                self.factor_matrix,
+                self.square_matrix,
+                self.inner_square_matrix,
+                self._sign,
+            ),
+        )
 
     def _check_equality(self, other: SymmetricLowRankUpdateMatrix) -> bool:
         return (
             self.factor_matrix == other.factor_matrix
             and self.symmetric_matrix == other.symmetric_matrix
             and self.inner_symmetric_matrix == other.inner_symmetric_matrix
+            and self._sign == other._sign
         )
 
 
